@@ -8,7 +8,8 @@ tie:    whole scenarios under a virtual clock (multiples of 125 ms): a scripted 
         the Lean session model (`sess.step`); effects (frames with their virtual SendingTime, hooks,
         socket close) and complete post-states are compared after every event.
 oracle: the sentences of C12 with explicit slack, evaluated on the implementation's time line only
-        (never calls the model): TestRequest by a + h + delta after the last arrival a; a silent peer is
+        (never calls the model): TestRequest at the first tick at or after a + h (so by a + h + delta) after the last arrival a; a TestRequest
+        unanswered for 2h (and no frame for 2h) is dropped at the next tick; a silent peer is
         disconnected by a + 3h + 2*delta; a watchdog disconnect needs a TestRequest that stayed unanswered
         for more than 2h - 1 s (liveness by echo) and no valid frame within the last h s (liveness by
         traffic - judged separately); echo of inbound TestRequests; at most one outstanding; wrong id =>
@@ -354,10 +355,11 @@ def judge(spec, line):
                 yield ("C12-tick-writes-other-frame", "a watchdog iteration wrote something else than a TestRequest", {"step": k})
             if len(treqs) > 1 or (treqs and outstanding):
                 yield ("C12-second-testrequest", "a TestRequest was sent while one is outstanding", {"step": k, "t": t - t0})
-            # sentence 1: TestRequest by a + h + delta
-            if not outstanding and not treqs and t > probe_due_from + H + delta:
+            # sentence 1: TestRequest by a + h + delta, delta = distance to the next tick: the first tick at or after
+            # a + h (which comes no later than a + h + delta) must find the TestRequest sent or send it
+            if not outstanding and not treqs and t >= probe_due_from + H:
                 yield ("C12-testrequest-late", f"nothing received since {probe_due_from - t0} ms, none outstanding, "
-                       f"tick at {t - t0} ms > h + delta = {H + delta} ms later and still no TestRequest", {"step": k})
+                       f"tick at {t - t0} ms >= h later and still no TestRequest", {"step": k})
             if treqs:
                 tid = dict(treqs[0][1]).get(112)
                 if tid != str(t // 1000):
@@ -378,9 +380,12 @@ def judge(spec, line):
                     yield ("C12-traffic-does-not-answer-testrequest", "the watchdog disconnected a peer whose last valid "
                            f"frame arrived {t - last_arrival} ms ago (<= one interval): inbound traffic refreshes "
                            "_message_last_time but only the echo clears _test_req_id", {"step": k, "t": t - t0})
-                up = False
             else:
-                # sentence 2: silent peer => disconnected by a + 3h + 2 delta
+                # sentence 2: a TestRequest still unanswered 2h after it was sent => disconnected at that tick at the
+                # latest (with sentence 1: a silent peer is disconnected by a + 3h + 2 delta, checked as well)
+                if outstanding and t > outstanding[1] + 2 * H and t > last_arrival + 2 * H:
+                    yield ("C12-unanswered-testrequest-not-dropped", f"TestRequest sent {t - outstanding[1]} ms ago (> 2h), "
+                           f"no echo, last frame {t - last_arrival} ms ago (> 2h), and the connection is still up", {"step": k})
                 if t > last_arrival + 3 * H + 2 * delta:
                     yield ("C12-dead-peer-not-disconnected", f"no frame for {t - last_arrival} ms > 3h + 2 delta and the "
                            "connection is still up", {"step": k})
@@ -411,19 +416,24 @@ def judge(spec, line):
                             and s["a_post"].state == 3):
                         yield ("C12-wrong-id-no-logout", "a Heartbeat echoing a wrong TestReqID did not end the session with "
                                "a Logout", {"step": k, "effects": [e.split('=')[0] for e in eff]})
-                    up = False
+                        if s["a_post"].test_req_id is None:
+                            outstanding = None
             elif mtype == "0" and outstanding and 112 not in fd:
                 if fr or disconnected or s["a_post"].test_req_id is None:
                     yield ("C12-heartbeat-without-id-not-ignored", "an interval Heartbeat touched the outstanding TestRequest",
                            {"step": k})
             elif disconnected:
                 yield ("C12-valid-frame-disconnects", "a valid in-sequence frame caused a disconnect", {"step": k})
-            if up:
+            if up and s["a_post"].state > 3:
                 last_arrival = t
                 if not outstanding:
                     probe_due_from = t
                 if s["a_post"].last_time != t:
                     yield ("C12-last-time-not-refreshed", "_message_last_time was not set by a valid frame", {"step": k})
+        # whatever was expected: go on from what the connection actually is
+        up = s["a_post"].state > 3 and s["a_post"].sock
+        if not up:
+            outstanding = None
 
 
 def judge_all(runs, limit_per_sig=3):
